@@ -136,6 +136,31 @@ theorem cw_kemeny_partial {v : Pairwise} (hwf : WF v) {w : Cand} (hw : IsCW v w)
       subst hh
       rw [hr]; rfl
 
+/-- the multi-seat evaluation (one tier per seat, fix 33df8fe) asked for one seat is the one-seat evaluation,
+    so every one-seat theorem above also speaks about `tidemanN … 1` -/
+theorem tidemanN_one (smith : Bool) (p : Profile) : tidemanN smith p 1 = tideman smith p := by
+  unfold tidemanN tideman
+  simp only
+  rw [show (allRankedCandidates p).length + 2 = ((allRankedCandidates p).length + 1) + 1 from rfl]
+  unfold tidemanLoop
+  cases tidemanTier smith ((allRankedCandidates p).length + 3) p with
+  | error e => rfl
+  | ok s =>
+    cases s with
+    | tie cs => rfl
+    | cand c =>
+      simp only
+      cases hc : (allRankedCandidates p).contains c with
+      | true => simp
+      | false => simp
+
+/-- the last tier of an all-seats evaluation holds a lone candidate, whose pairwise dictionary is empty: the
+    set selector returns nothing and `eliminate_one` ends in IndexError (open finding; tie-free profile) -/
+theorem tideman_all_seats_witness :
+    tidemanN true [([.one 0, .one 1, .one 2], 3), ([.one 1, .one 0, .one 2], 2)] 2 = .ok [Slot.cand 0, Slot.cand 1] ∧
+    tidemanN true [([.one 0, .one 1, .one 2], 3), ([.one 1, .one 0, .one 2], 2)] 3 = .error (.other "IndexError") := by
+  decide +kernel
+
 /-! ### Smith efficiency -/
 
 /-- **Copeland's first place lies in the Smith set**: every candidate named for a single seat — alone or
